@@ -10,8 +10,8 @@ d = tempfile.mkdtemp(prefix="mut-", dir="/var/tmp")
 try:
     repo = os.path.join(d, "repo")
     subprocess.run(["git", "-C", "/repo", "worktree", "add", "--detach", "-q", repo, "HEAD"], check=True)
-    if patch.startswith("sed:"):
-        _, fn, pat, repl = patch.split(":", 3)
+    if patch.startswith("sed@"):
+        _, fn, pat, repl = patch.split("@", 3)
         p = os.path.join(repo, fn)
         s = open(p).read()
         s2, n = re.subn(pat, repl, s, count=1)
